@@ -16,6 +16,8 @@ CONSTANTS
   UnsetGuard = TRUE
   RemoveCancels = TRUE
   SharedGen = TRUE
+  EmitBeforeClose = TRUE
+  MaxHeld = 0
 CONSTRAINT DistinctTickets
 CONSTRAINT RegistryExact
 CONSTRAINT NoOverdue
